@@ -62,7 +62,7 @@ def run(tier):
         "exhaustive": False,
         "histories": stats["histories"], "battery_queries": stats["queries"],
     }
-    vlib.write_evidence(PROP, tier, "trace_validation", cov, time.time() - t0, n_viol, assumptions=[
+    vlib.write_evidence(PROP, tier, "exploration", cov, time.time() - t0, n_viol, assumptions=[
         "purges are excluded from these histories (only an explicit purge may remove the past)",
         "schema activation between points (resolution under the schema environment of that point) is not exercised",
         "belief / slot projection patterns are not part of the battery (C20 decides projections)",
